@@ -153,6 +153,11 @@ class Point:
             # self.__class__(x, y, a, b)
             return self.__class__(None, None, self.a, self.b)
 
+        # Case 1.5: doubling a point whose tangent is vertical (y == 0)
+        # Result is point at infinity
+        if self == other and self.y == 0 * self.x:
+            return self.__class__(None, None, self.a, self.b)
+
         # Case 2: self.x != other.x
         if self.x != other.x:
             # Formula (x3,y3)==(x1,y1)+(x2,y2)
